@@ -212,7 +212,8 @@ def _tables(node, exp):
     for t in node.find_all(exp.Table):
         if t.args.get("db") or t.args.get("catalog"):
             raise NotExportable(f"table with db/catalog: {t.sql()}")
-        out.append(t.name)
+        if t.name not in out:      # first-occurrence order, one entry per name
+            out.append(t.name)
     return out
 
 
